@@ -52,14 +52,19 @@ REAL = {
     'farm': [{'kind': 'msg', 'type': 'register', 'rev': 'abc'},
              {'kind': 'msg', 'type': 'status', 'rev': 'q'},
              {'kind': 'msg', 'type': 'response', 'rev': 'zz'},
-             {'kind': 'msg', 'type': 'wait'}],
+             {'kind': 'msg', 'type': 'wait'},
+             {'kind': 'msg', 'type': 'status', 'rev': 'x' * 300}],     # payload > 255 bytes
     'db': [{'kind': 'cmd', 'func': 'acquire', 'value': 'client-7'},
            {'kind': 'cmd', 'func': 'dbcopy', 'value': None},
            {'kind': 'cmd', 'func': 'release'},
-           {'kind': 'cmd', 'func': 'table'}],
+           {'kind': 'cmd', 'func': 'table'},
+           {'kind': 'cmd', 'func': 'acquire', 'value': 'n' * 700}],
     'log': [{'kind': 'rec', 'msg': 'a'}, {'kind': 'rec', 'msg': 'bb ' * 20},
-            {'kind': 'rec', 'msg': ''}],
+            {'kind': 'rec', 'msg': ''}, {'kind': 'rec', 'msg': 'm' * 1000}],
 }
+BIG = {'farm': {'kind': 'msg', 'type': 'status', 'rev': 'y' * 70000},   # third header byte non-zero
+       'db': {'kind': 'cmd', 'func': 'acquire', 'value': 'z' * 66000},
+       'log': {'kind': 'rec', 'msg': 'w' * 67000}}
 
 
 FP_FILE = os.path.join(core.VERIF, 'corpus', 'C14', 'fingerprints.json')
@@ -232,7 +237,7 @@ def framing_cases(ctx, real):
         rknown = [p for p, _ in rp]
         rclosers = [p for p, s in rp if closing_spec(chan, s)]
         if chan == 'db':
-            orders = [[0, 1, 0, 2], [0, 3, 2], [1, 2]]
+            orders = [[0, 1, 4, 2], [0, 3, 2], [1, 2]]
         else:
             orders = [list(range(len(rp))), [len(rp) - 1, 0, 0]]
         for oi, order in enumerate(orders[: ctx.n(2, 3)]):
@@ -375,6 +380,43 @@ def frame_oracle(ctx, c, runs):
                            'expected': wev, 'observed': ev})
             return
     return past
+
+
+def run_big(ctx):
+    """one payload > 65535 bytes per channel (all four header bytes matter), a few
+    cuts; thorough depth only"""
+    rng = random.Random('%s:C14:big' % ctx.seed)
+    pk = ctx.harness('drive_frame.py', {'pickles': [BIG[ch] for ch in CHANS]})['pickles']
+    cases = []
+    for ch, hx in zip(CHANS, pk):
+        big = bytes.fromhex(hx)
+        small = b'\x01'
+        al = {bytes.fromhex(h): s for h, s in ALIAS[ch].items()}
+        c = Case(ch, 'big', [('frame', big), ('frame', small)], [], [big, small],
+                 [q for q in [small] if closing_spec(ch, al[q])], [big, small])
+        n = len(c.stream)
+        c.chunkings = [[n], [1, n - 1], [2, n - 2], [3, n - 3], [4, n - 4], [n - 6, 6], [4, n - 9, 5]]
+        for _ in range(5):
+            cuts = sorted(set(rng.randrange(1, n) for _ in range(rng.choice([2, 5, 40]))))
+            c.chunkings.append([j - i for i, j in zip([0] + cuts, cuts + [n])])
+        cases.append(c)
+    impl = ctx.harness('drive_frame.py', {'alias': ALIAS, 'cases': [c.payload() for c in cases]})
+    per_case = []
+    for c, r in zip(cases, impl['cases']):
+        dist = [canon_impl(o, c.known) for o in r['distinct']]
+        runs = [(lens, dist[k], r['distinct'][k]) for lens, k in r['runs']]
+        per_case.append(runs)
+        frame_oracle(ctx, c, runs)
+    nev = 0
+    for c, runs in zip(cases, per_case):     # one channel per Coq file: the stream literal is big
+        mod = model_frames(ctx, [c])[0]
+        for lens, obs, raw in runs:
+            nev += 1
+            if mod.get(tuple(lens)) != obs and ctx.nviol == 0:
+                ctx.broken('correspondence Frame.v vs %s.dataReceived (payload > 65535 bytes)' % c.chan,
+                           'chunks %s' % lens, {'source': 'correspondence', 'chunks': lens, 'chan': c.chan})
+    ctx.count(evaluations=nev, nontrivial_keys=[('big', c.chan, tuple(l)) for c in cases for l in c.chunkings[1:]])
+    ctx.note('big_payload_bytes', {c.chan: len(c.parts[0][1]) for c in cases})
 
 
 def run_framing(ctx, real):
@@ -932,7 +974,7 @@ def run(ctx):
     changed = sorted(k for k in set(fps) | set(expect) if fps.get(k) != expect.get(k))
     ctx.note('escalated_by_fingerprint', bool(changed))
     ctx.note('changed_fingerprints', changed)
-    if changed and ctx.quick:
+    if changed and ctx.quick and not os.environ.get('VERIF_NO_ESCALATE'):
         # a modelled function was edited: not a verdict, but the correspondence
         # and the oracle now run at the thorough depth (DESIGN 5.2)
         ctx.log('fingerprint changed (%s): thorough depth' % ', '.join(changed))
@@ -942,6 +984,8 @@ def run(ctx):
     r = ctx.coq_props()
     real = real_payloads(ctx)
     run_framing(ctx, real)
+    if not ctx.quick:
+        run_big(ctx)
     run_handshake(ctx, real)
     run_client(ctx, real)
     if not r['ok']:
